@@ -1,0 +1,119 @@
+//go:build verif
+
+// Contracts for package message1_1 (comment-only; compiled only with -tags verif).
+package message1_1
+
+//@ func message1_1.NewRequest {C12,C10}
+//@   ensures [undefined-cid] baseCid == cid.Undef ==> err != nil && result0 == nil
+//@   ensures [fields] baseCid != cid.Undef ==> err == nil && result0 != nil && result0.IsRequest() && result0.TransferID() == id &&
+//@       result0.IsRestart() == isRestart && result0.IsNew() == !isRestart && result0.IsPull() == isPull && result0.BaseCid() == baseCid &&
+//@       result0.Selector().0 == selector && !result0.IsPaused() && !result0.IsCancel() && !result0.IsUpdate() && !result0.IsRestartExistingChannelRequest()
+//@   ensures [voucher] baseCid != cid.Undef && voucher != nil ==> result0.VoucherType() == (*voucher).Type && result0.Voucher().0 == (*voucher).Voucher
+//@   ensures [no-voucher] baseCid != cid.Undef && voucher == nil ==> result0.VoucherType() == datatransfer.EmptyTypeIdentifier && result0.EmptyVoucher()
+//@   ensures [pure] untouched
+
+//@ func message1_1.RestartExistingChannelRequest {C12,C10}
+//@   ensures [fields] result != nil && result.IsRequest() && result.IsRestartExistingChannelRequest() && result.RestartChannelId().0 == channelId &&
+//@       result.RestartChannelId().1 == nil && !result.IsNew() && !result.IsRestart() && !result.IsCancel() && !result.IsUpdate() && untouched
+//@ func message1_1.CancelRequest {C12,C09}
+//@   ensures [fields] result != nil && result.IsRequest() && result.IsCancel() && result.TransferID() == id && !result.IsNew() && !result.IsRestart() &&
+//@       !result.IsUpdate() && !result.IsVoucher() && untouched
+//@ func message1_1.UpdateRequest {C12,C11}
+//@   ensures [fields] result != nil && result.IsRequest() && result.IsUpdate() && result.IsPaused() == isPaused && result.TransferID() == id &&
+//@       !result.IsNew() && !result.IsRestart() && !result.IsCancel() && !result.IsVoucher() && untouched
+//@ func message1_1.VoucherRequest {C12,C19}
+//@   ensures [fields] err == nil && result0 != nil && result0.IsRequest() && result0.IsVoucher() && !result0.IsNew() && !result0.IsRestart() && !result0.IsCancel() &&
+//@       !result0.IsUpdate() && result0.TransferID() == id && untouched
+//@   ensures [voucher] voucher != nil ==> result0.VoucherType() == (*voucher).Type && result0.Voucher().0 == (*voucher).Voucher
+
+//@ func message1_1.ValidationResultResponse {C12,C04}
+//@   ensures [accept] err == nil && result0 != nil && result0.Accepted() == (validationErr == nil && validationResult.Accepted)
+//@   ensures [fields] !result0.IsRequest() && result0.TransferID() == id && result0.IsPaused() == paused &&
+//@       result0.IsNew() == (messageType == types.NewMessage) && result0.IsRestart() == (messageType == types.RestartMessage) &&
+//@       result0.IsComplete() == (messageType == types.CompleteMessage) && result0.IsUpdate() == (messageType == types.UpdateMessage) &&
+//@       result0.IsCancel() == (messageType == types.CancelMessage) && untouched
+//@   ensures [voucher-result] validationResult.VoucherResult != nil ==> result0.VoucherResultType() == (*validationResult.VoucherResult).Type &&
+//@       result0.VoucherResult().0 == (*validationResult.VoucherResult).Voucher
+//@   ensures [no-voucher-result] validationResult.VoucherResult == nil ==> result0.EmptyVoucherResult()
+
+//@ func message1_1.CompleteResponse {C12,C01,C03}
+//@   ensures [fields] err == nil && result0 != nil && !result0.IsRequest() && result0.IsComplete() && result0.Accepted() == isAccepted &&
+//@       result0.IsPaused() == isPaused && result0.TransferID() == id && !result0.IsNew() && !result0.IsRestart() && !result0.IsCancel() && !result0.IsUpdate() &&
+//@       result0.IsValidationResult() && untouched
+//@   ensures [voucher-result] voucherResult != nil ==> result0.VoucherResultType() == (*voucherResult).Type && result0.VoucherResult().0 == (*voucherResult).Voucher
+//@ func message1_1.VoucherResultResponse {C12,C19}
+//@   ensures [fields] err == nil && result0 != nil && !result0.IsRequest() && !result0.IsComplete() && result0.Accepted() == accepted &&
+//@       result0.IsPaused() == isPaused && result0.TransferID() == id && !result0.IsNew() && !result0.IsRestart() && !result0.IsCancel() && !result0.IsUpdate() &&
+//@       result0.IsValidationResult() && untouched
+//@   ensures [voucher-result] voucherResult != nil ==> result0.VoucherResultType() == (*voucherResult).Type && result0.VoucherResult().0 == (*voucherResult).Voucher
+//@ func message1_1.NewResponse {C12}
+//@   ensures [fields] err == nil && result0 != nil && !result0.IsRequest() && result0.IsNew() && result0.Accepted() == accepted && result0.IsPaused() == isPaused &&
+//@       result0.TransferID() == id && result0.IsValidationResult() && untouched
+//@ func message1_1.RestartResponse {C12}
+//@   ensures [fields] err == nil && result0 != nil && !result0.IsRequest() && result0.IsRestart() && result0.Accepted() == accepted && result0.IsPaused() == isPaused &&
+//@       result0.TransferID() == id && result0.IsValidationResult() && untouched
+//@ func message1_1.UpdateResponse {C12,C08,C11}
+//@   ensures [fields] result != nil && !result.IsRequest() && result.IsUpdate() && result.IsPaused() == isPaused && result.TransferID() == id &&
+//@       !result.IsNew() && !result.IsRestart() && !result.IsCancel() && !result.IsComplete() && !result.IsValidationResult() && untouched
+//@ func message1_1.CancelResponse {C12,C09}
+//@   ensures [fields] result != nil && !result.IsRequest() && result.IsCancel() && result.TransferID() == id && !result.IsNew() && !result.IsRestart() &&
+//@       !result.IsUpdate() && !result.IsComplete() && !result.IsValidationResult() && untouched
+
+// kind predicates: definitions over the published message-type numbering
+//@ func (*message1_1.TransferRequest1_1).IsVoucher {C12}
+//@   ensures [def] result == (trq.MessageType == 4 || trq.MessageType == 0)
+//@ func (*message1_1.TransferRequest1_1).IsNew {C12}
+//@   ensures [def] result == (trq.MessageType == 0)
+//@ func (*message1_1.TransferRequest1_1).IsUpdate {C12}
+//@   ensures [def] result == (trq.MessageType == 1)
+//@ func (*message1_1.TransferRequest1_1).IsCancel {C12}
+//@   ensures [def] result == (trq.MessageType == 2)
+//@ func (*message1_1.TransferRequest1_1).IsRestart {C12}
+//@   ensures [def] result == (trq.MessageType == 6)
+//@ func (*message1_1.TransferRequest1_1).IsRestartExistingChannelRequest {C12}
+//@   ensures [def] result == (trq.MessageType == 7)
+//@ func (*message1_1.TransferRequest1_1).IsRequest {C12}
+//@   ensures [def] result
+//@ func (*message1_1.TransferRequest1_1).BaseCid {C12}
+//@   ensures [def] (trq.BaseCidPtr == nil ==> result == cid.Undef) && (trq.BaseCidPtr != nil ==> result == *trq.BaseCidPtr)
+//@ func (*message1_1.TransferRequest1_1).TransferID {C12}
+//@   ensures [full-range] result == trq.TransferId
+//@ func (*message1_1.TransferResponse1_1).IsRequest {C12}
+//@   ensures [def] !result
+//@ func (*message1_1.TransferResponse1_1).IsNew {C12}
+//@   ensures [def] result == (trsp.MessageType == 0)
+//@ func (*message1_1.TransferResponse1_1).IsUpdate {C12}
+//@   ensures [def] result == (trsp.MessageType == 1)
+//@ func (*message1_1.TransferResponse1_1).IsCancel {C12}
+//@   ensures [def] result == (trsp.MessageType == 2)
+//@ func (*message1_1.TransferResponse1_1).IsComplete {C12}
+//@   ensures [def] result == (trsp.MessageType == 3)
+//@ func (*message1_1.TransferResponse1_1).IsRestart {C12}
+//@   ensures [def] result == (trq.MessageType == 6)
+//@ func (*message1_1.TransferResponse1_1).IsValidationResult {C12}
+//@   ensures [def] result == (trsp.MessageType == 5 || trsp.MessageType == 0 || trsp.MessageType == 3 || trsp.MessageType == 6)
+//@ func (*message1_1.TransferResponse1_1).Accepted {C12,C04}
+//@   ensures [def] result == trsp.RequestAccepted
+//@ func (*message1_1.TransferResponse1_1).TransferID {C12}
+//@   ensures [full-range] result == trsp.TransferId
+
+//@ extern func (*github.com/ipld/go-ipld-prime/node/bindnode/registry.BindnodeRegistry).TypeFromReader
+//@ extern func (*github.com/ipld/go-ipld-prime/node/bindnode/registry.BindnodeRegistry).TypeFromNode
+//@ func message1_1.FromNet {C12,C15}
+//@   after BindnodeRegistry.TypeFromReader [decodes-into-prototype] $r1 == nil ==> dyntype_is($r0, *TransferMessage1_1) && $r0.(*TransferMessage1_1) != nil
+//@   ensures [decode-error] ret(BindnodeRegistry.TypeFromReader, 1) != nil ==> err != nil && result0 == nil
+//@   ensures [body] err == nil ==> result0 != nil && calls(BindnodeRegistry.TypeFromReader) == 1 &&
+//@       ((*ret(BindnodeRegistry.TypeFromReader, 0).(*TransferMessage1_1)).IsRequest ?
+//@           (*ret(BindnodeRegistry.TypeFromReader, 0).(*TransferMessage1_1)).Request != nil && dyntype_is(result0, *TransferRequest1_1) &&
+//@              result0.(*TransferRequest1_1) == (*ret(BindnodeRegistry.TypeFromReader, 0).(*TransferMessage1_1)).Request :
+//@           (*ret(BindnodeRegistry.TypeFromReader, 0).(*TransferMessage1_1)).Response != nil && dyntype_is(result0, *TransferResponse1_1) &&
+//@              result0.(*TransferResponse1_1) == (*ret(BindnodeRegistry.TypeFromReader, 0).(*TransferMessage1_1)).Response)
+//@ func message1_1.FromIPLD {C12,C16}
+//@   after BindnodeRegistry.TypeFromNode [decodes-into-prototype] $r1 == nil ==> dyntype_is($r0, *TransferMessage1_1) && $r0.(*TransferMessage1_1) != nil
+//@   ensures [decode-error] calls(BindnodeRegistry.TypeFromNode) == 1 && ret(BindnodeRegistry.TypeFromNode, 1) != nil ==> err != nil && result0 == nil
+//@   ensures [body] err == nil ==> result0 != nil && calls(BindnodeRegistry.TypeFromNode) == 1 &&
+//@       ((*ret(BindnodeRegistry.TypeFromNode, 0).(*TransferMessage1_1)).IsRequest ?
+//@           (*ret(BindnodeRegistry.TypeFromNode, 0).(*TransferMessage1_1)).Request != nil && dyntype_is(result0, *TransferRequest1_1) &&
+//@              result0.(*TransferRequest1_1) == (*ret(BindnodeRegistry.TypeFromNode, 0).(*TransferMessage1_1)).Request :
+//@           (*ret(BindnodeRegistry.TypeFromNode, 0).(*TransferMessage1_1)).Response != nil && dyntype_is(result0, *TransferResponse1_1) &&
+//@              result0.(*TransferResponse1_1) == (*ret(BindnodeRegistry.TypeFromNode, 0).(*TransferMessage1_1)).Response)
